@@ -74,3 +74,79 @@ def mpz_aors(op):
     )
 UNITS.append(mpz_aors('add'))
 UNITS.append(mpz_aors('sub'))
+
+# ------------------------------------------------------------------ mpz_neg / mpz_abs / mpz_set
+from c03_mpn import copy_loop
+ALIAS2 = '''  mpz_ptr w = &W; mpz_srcptr u = &U;
+  if (nondet_bool ()) u = w;                 /* w == u permitted (C05) */
+'''
+def mpz_copyish(op, sizexpr, muts):
+    f = '__gmpz_' + op
+    return dict(
+        name='mpz_' + op, props=['C03', 'C04', 'C05', 'C15'], source='mpz/%s.c' % op, contracts=['mpn.h', 'mpz.h'],
+        enforce=[f], replace=['__gmpz_realloc'],
+        functions={f: dict(loops={0: copy_loop('gk', 'incr')})},
+        harness='''void h_mpz_%(op)s (void) {
+%(W)s%(U)s%(alias)s
+  gk = nondet_long (); gj = nondet_long (); gh = nondet_long ();
+  __CPROVER_assume (0 <= gk && gk <= V_NMAX && V_WF (w) && V_WF (u));
+  long su = V_SIZ (u), un = V_ABS (su);
+  mp_limb_t Uk = gk < un ? V_PTR (u)[gk] : 0;
+  %(f)s (w, u);
+  __CPROVER_assert ((long) V_SIZ (w) == (%(sz)s), "[C03] size and sign of the result");
+  __CPROVER_assert (gk < un ==> V_PTR (w)[gk] == Uk, "[C03][C05] limb gk of the result is limb gk of the operand");
+  __CPROVER_assert (u != w ==> ((long) V_SIZ (u) == su && (gk < un ==> V_PTR (u)[gk] == Uk)), "[C05] source operand unchanged");
+}''' % dict(op=op, f=f, W=mpz_obj('W'), U=mpz_obj('U'), alias=ALIAS2, sz=sizexpr),
+        selftest=[(f,) + m for m in muts])
+UNITS.append(mpz_copyish('neg', '-su', [(r'w->_mp_size = -usize', 'w->_mp_size = usize'), (r'w->_mp_alloc < size', 'w->_mp_alloc < size - 1')]))
+UNITS.append(mpz_copyish('abs', 'un', [(r'w->_mp_size = size', 'w->_mp_size = u->_mp_size')]))
+UNITS.append(mpz_copyish('set', 'su', [(r'w->_mp_alloc < size', 'w->_mp_alloc <= size - 2')]))
+
+UNITS.append(dict(
+    name='mpz_swap', props=['C03', 'C04', 'C05', 'C15'], source='mpz/swap.c', contracts=['mpz.h'], enforce=['__gmpz_swap'],
+    harness='void h_mpz_swap (void) {\n%s%s  mpz_ptr u = &U, v = &V; if (nondet_bool ()) v = u;\n  __gmpz_swap (u, v);\n}' % (mpz_obj('U'), mpz_obj('V')),
+    selftest=[('__gmpz_swap', r'u->_mp_size = vsize', 'u->_mp_size = usize')]))
+
+# ------------------------------------------------------------------ mpz_mul_2exp
+def store_loop(K):
+    return dict(snap='mp_size_t V_sn = __n; mp_ptr V_sd = __dst; long V_sK = (%s);' % K, scalars=['__n'], havoc_targets=['__dst'],
+                havoc='{ __CPROVER_assume (1 <= __n && __n <= V_sn); __dst = V_sd + (V_sn - __n); }',
+                slices=[('V_sd', 'V_sn * 8')],
+                inv='(1 <= __n && __n <= V_sn && __dst == V_sd + (V_sn - __n) && ((0 <= V_sK && V_sK < V_sn - __n) ==> V_sd[V_sK] == 0))',
+                dec='__n')
+UNITS.append(dict(
+    name='mpz_mul_2exp', props=['C03', 'C04', 'C05', 'C15'], source='mpz/mul_2exp.c', contracts=['mpn.h', 'mpz.h'],
+    enforce=['__gmpz_mul_2exp'], replace=['__gmpz_realloc', '__gmpn_lshift'],
+    functions={'__gmpz_mul_2exp': dict(
+        inserts=[(r'wlimb = __gmpn_lshift \([^;]*\);',
+                  r'{ long V_sv = gk; gk = (gk >= limb_cnt && gk < limb_cnt + abs_usize) ? gk - limb_cnt : 0; \g<0> gk = V_sv; }')],
+        loops={0: copy_loop('gk - limb_cnt', 'decr'), 1: store_loop('gk')})},
+    harness='''void h_mpz_mul_2exp (void) {
+%(W)s%(U)s%(alias)s
+  mp_bitcnt_t cnt = nondet_ulong ();
+  gk = nondet_long ();
+  __CPROVER_assume (0 <= gk && gk <= V_ZMAX && V_WF (w) && V_WF (u));
+  long su = V_SIZ (u), un = V_ABS (su), lc = cnt / 64; unsigned c = cnt %% 64;
+  __CPROVER_assume (un + lc + 1 <= V_ZMAX);
+  long j = gk - lc;                      /* source position feeding result limb gk */
+  gj = j >= 0 ? j : 0; gh = j >= 1 ? j - 1 : 0;     /* realloc preserves the limbs at gk, gj, gh */
+  mp_limb_t Uj = (0 <= j && j < un) ? V_PTR (u)[j] : 0, Ul = (1 <= j && j <= un) ? V_PTR (u)[j - 1] : 0;
+  mp_limb_t Utop = un > 0 ? V_PTR (u)[un - 1] : 0;
+  __gmpz_mul_2exp (w, u, cnt);
+  long sw = V_SIZ (w), wn = V_ABS (sw);
+  mp_limb_t Wk = V_PTR (w)[gk < V_ALLOC (w) ? gk : 0];
+  if (su == 0)
+    __CPROVER_assert (sw == 0, "[C03] 0 * 2^cnt = 0");
+  else
+    {
+      __CPROVER_assert (wn == un + lc || wn == un + lc + 1, "[C03] size is un + cnt/64 (+1 if bits were shifted into a new limb)");
+      __CPROVER_assert ((sw < 0) == (su < 0), "[C03] sign unchanged");
+      __CPROVER_assert (gk < lc ==> Wk == 0, "[C03] low cnt/64 limbs are zero");
+      __CPROVER_assert ((lc <= gk && gk < un + lc) ==> Wk == (c ? ((Uj << c) | (Ul >> (64 - c))) : Uj), "[C03][C05] limb gk is the shifted source");
+      __CPROVER_assert ((gk == un + lc && gk < wn) ==> (c != 0 && Wk == (Ul >> (64 - c))), "[C03] the new top limb holds the bits shifted out");
+      __CPROVER_assert ((wn == un + lc && gk == un + lc - 1 && c != 0) ==> (Uj >> (64 - c)) == 0, "[C03] no new limb only if nothing was shifted out");
+    }
+}''' % dict(W=mpz_obj('W'), U=mpz_obj('U'), alias=ALIAS2),
+    selftest=[('__gmpz_mul_2exp', r'wsize = abs_usize \+ limb_cnt \+ 1', 'wsize = abs_usize + limb_cnt'),
+              ('__gmpz_mul_2exp', r'if \(wlimb != 0\)', 'if (wlimb > 1)')],
+))
